@@ -458,8 +458,7 @@ fn run_case(case: usize, nch: usize, script: Option<Vec<Op>>, rng: &mut Rng, len
             }
         }
         if !matches!(op, Op::Restart) {
-            let shadow = sys.world.restart(&sys.node_id);
-            let d = fingerprint_diff(&fingerprint(&sys.node), &fingerprint(&shadow));
+            let d = restart_gap(&sys.world, &sys.node);
             if !d.is_empty() && !violations.iter().any(|v| v.starts_with("C11")) {
                 violations.push(format!("C11: after {} ({}) a restart would differ: {}", j, if ok { "Ok" } else { "Err" }, d.join("; ")));
             }
